@@ -26,13 +26,14 @@ pub const DEF: PropDef = PropDef {
 every length entry point of the library (len_*, len_*_param::<true|false>, Codes::len, ConstCode::<ID>::len for every identifier naming the \
 code, FuncCodeLen::new(code) where it exists, bit_len_vbyte/byte_len_vbyte, len_minimal_binary), (2) the value returned by the library's write, \
 (3) the growth of the stream measured from the words actually delivered to a recording backend, (4) the bit_pos growth of a library read of \
-that codeword. Parts: every value below 2^12 (quick) / 2^16 (thorough) for parameters <= 10; the boundary grid of every code and parameter; \
+that codeword; (2)-(4) for every invocation variant (tables on, off, default method). Parts: every value below 2^12 (quick) / 2^16 (thorough) for parameters <= 10; the boundary grid of every code and parameter; \
 every point where the reference length steps over the full 64-bit domain (found by an independent exponential+binary search on the reference \
 length; first 256 steps for the linearly growing Golomb/Rice/unary), each with its neighbours v-1, v, v+1. Non-trivial: value within 1 of a \
 step point, or >= 2^32, or parameter > 10; distinct = distinct (endianness, code, batch) hashes.",
     assumptions: &["reference length formulas (vcore::refcodes::len), cross-checked against the reference encoders by the self-test", "D5, D6, D1"],
     run,
     replay,
+    from_bytes: None,
 };
 
 impl Case {
@@ -88,33 +89,40 @@ pub fn check_case(c: &Case, env: &Env) -> CheckResult {
             o.nt("within_1_of_length_step");
         }
     }
-    // (2)+(3): library write on a recording backend: return values and delivered bits
-    let call = Call::plain(c.code);
-    let mut wops: Vec<WOp> = vec![WOp::Bits { v: 5, n: 3 }];
-    for &v in &vals {
-        wops.push(WOp::Code { call, v });
+    // (2)+(3): library write on a recording backend: return values and delivered bits;
+    // (4): library read, position growth -- for every invocation variant (table options on/off/default)
+    let variants = Call::variants(c.code);
+    for (vi, call) in variants.iter().enumerate() {
+        let mut wops: Vec<WOp> = vec![WOp::Bits { v: 5, n: 3 }];
+        for &v in &vals {
+            wops.push(WOp::Code { call: *call, v });
+        }
+        wops.push(WOp::Bits { v: 0x155, n: 9 });
+        let done = run_writer(WCfg::new(c.e, Wd::U64, WBackend::Recording), WEnd::IntoInner, &wops).map_err(|mut f| {
+            f.sig = format!("w/{}", f.sig);
+            f
+        })?;
+        let model = vcore::BitVec::from_bytes(&done.bytes, c.e);
+        let mut starts = BTreeMap::new();
+        let mut p = 3usize;
+        let mut rops = vec![ROp::Bits(3)];
+        for &v in &vals {
+            starts.insert(p, c.code);
+            p += refcodes::len(c.code, v);
+            rops.push(ROp::Code(*call));
+        }
+        rops.push(ROp::Bits(9));
+        // readers rotate with the variant; all of them may use every table (D7 is still enforced by run_reader)
+        let rk = [RKind::Buf(Wd::U32), RKind::Buf(Wd::U64), RKind::Unbuf, RKind::Buf(Wd::U16)][vi % 4];
+        let s = RStream { cfg: RCfg::new(c.e, rk, RBackend::Strict), model: &model, starts: &starts, tables: &env.tables, free_codes: &[] };
+        run_reader(&s, &with_pos(rops)).map_err(|mut f| {
+            f.sig = format!("r/{}", f.sig);
+            f
+        })?;
     }
-    wops.push(WOp::Bits { v: 0x155, n: 9 });
-    let done = run_writer(WCfg::new(c.e, Wd::U64, WBackend::Recording), WEnd::IntoInner, &wops).map_err(|mut f| {
-        f.sig = format!("w/{}", f.sig);
-        f
-    })?;
-    // (4): library read, position growth
-    let model = vcore::BitVec::from_bytes(&done.bytes, c.e);
-    let mut starts = BTreeMap::new();
-    let mut p = 3usize;
-    let mut rops = vec![ROp::Bits(3)];
-    for &v in &vals {
-        starts.insert(p, c.code);
-        p += refcodes::len(c.code, v);
-        rops.push(ROp::Code(call));
+    if variants.len() > 1 {
+        o.label("all_table_options");
     }
-    rops.push(ROp::Bits(9));
-    let s = RStream { cfg: RCfg::new(c.e, RKind::Buf(Wd::U32), RBackend::Strict), model: &model, starts: &starts, tables: &env.tables, free_codes: &[] };
-    run_reader(&s, &with_pos(rops)).map_err(|mut f| {
-        f.sig = format!("r/{}", f.sig);
-        f
-    })?;
     Ok(o)
 }
 
